@@ -125,6 +125,7 @@ func propC18rest(a *Analysis, r *Registry, b *B) {
 		}
 		nOut, nOld := 0, 0
 		paired := true
+		builtSites := map[string]map[string]map[int]int{} // node → field → block index → appends
 		// the two appends may be made here or by a helper that receives the node
 		for _, fc := range X.FCFor(fn).BoundCallees(1) {
 			fc := fc
@@ -139,6 +140,15 @@ func propC18rest(a *Analysis, r *Registry, b *B) {
 				}
 				fname2 := fa.X.Type().Underlying().(*types.Pointer).Elem().Underlying().(*types.Struct).Field(fa.Field).Name()
 				if _, isApp := st.Val.(*ssa.Call); !isApp {
+					// the lists built in locals and stored once: the blocks in which each local is
+					// appended to must be the same for the two lists stored into one node
+					if fname2 == "out" || fname2 == "oldEdges" {
+						key := fc.Val(fa.X).String()
+						if builtSites[key] == nil {
+							builtSites[key] = map[string]map[int]int{}
+						}
+						builtSites[key][fname2] = appendSites(st.Val)
+					}
 					return
 				}
 				other := map[string]string{"out": "oldEdges", "oldEdges": "out"}[fname2]
@@ -164,6 +174,29 @@ func propC18rest(a *Analysis, r *Registry, b *B) {
 					paired = false
 				}
 			})
+		}
+		if nOut == 0 && nOld == 0 && len(builtSites) > 0 {
+			// every node's two lists are built by appends in the same blocks, one each
+			same := true
+			n := 0
+			for _, byField := range builtSites {
+				o, e := byField["out"], byField["oldEdges"]
+				if len(o) == 0 || len(o) != len(e) {
+					same = false
+				}
+				for blk, k := range o {
+					n++
+					if k != 1 || e[blk] != 1 {
+						same = false
+					}
+				}
+			}
+			if same && n > 0 {
+				r.OK("C-pair lock-step", fname+"/out+oldEdges", b.pos(fn), "the two lists stored into a node are built by appends made in the same blocks, one each")
+			} else {
+				r.Fail("C-pair lock-step", fname+"/out+oldEdges", b.pos(fn), "out and oldEdges are not appended in lock-step (EdgeMap would translate wrongly)")
+			}
+			continue
 		}
 		if paired && nOut == 1 && nOld == 1 {
 			r.OK("C-pair lock-step", fname+"/out+oldEdges", b.pos(fn), "every path that appends a new edge also appends its old edge index, on the same node")
@@ -401,4 +434,32 @@ func propC18rest(a *Analysis, r *Registry, b *B) {
 			a.CheckNoMutation(r, "A-1 no-mutation", fn, nil)
 		}
 	}
+}
+
+// appendSites: the blocks (by index) holding the append calls through which
+// the slice value v is built, following phis and the extended slice of each
+// append, with the number of appends per block.
+func appendSites(v ssa.Value) map[int]int {
+	out := map[int]int{}
+	seen := map[ssa.Value]bool{}
+	var walk func(v ssa.Value)
+	walk = func(v ssa.Value) {
+		if v == nil || seen[v] {
+			return
+		}
+		seen[v] = true
+		switch t := v.(type) {
+		case *ssa.Phi:
+			for _, e := range t.Edges {
+				walk(e)
+			}
+		case *ssa.Call:
+			if bi, ok := t.Call.Value.(*ssa.Builtin); ok && bi.Name() == "append" && len(t.Call.Args) > 0 {
+				out[t.Block().Index]++
+				walk(t.Call.Args[0])
+			}
+		}
+	}
+	walk(v)
+	return out
 }
